@@ -801,7 +801,7 @@ def run_keyfile(case, rec):
 @st.composite
 def strat_arbitrary(draw, tier):
     target = draw(st.sampled_from(["RSA", "DSA", "ECC", "PEM", "PKCS8", "PKCS8", "unpad", "english", "openssh"]))
-    shape = draw(st.sampled_from(["binary", "text", "pemish", "derish", "sshish"]))
+    shape = draw(st.sampled_from(["binary", "text", "pemish", "derish", "sshish", "p8ish", "p8ish"]))
     if shape == "binary":
         data = draw(st.binary(max_size=80))
     elif shape == "text":
@@ -831,6 +831,37 @@ def strat_arbitrary(draw, tier):
         data = der.enc_seq(items)
         if draw(st.integers(0, 3)) == 0:
             data = byte_mutate(data, [[draw(st.sampled_from(["flip", "set", "del", "trunc"])), draw(st.integers(0, 1000)), draw(st.integers(0, 255))]], 1)
+    elif shape == "p8ish":
+        # PKCS#8-like skeletons: EncryptedPrivateKeyInfo = SEQ{ AlgorithmIdentifier, OCTET STRING } and PrivateKeyInfo = SEQ{ INT, AlgorithmIdentifier,
+        # OCTET STRING [, ...] } whose AlgorithmIdentifier has 0..3 members drawn from the OIDs and parameter shapes the PBES1/PBES2 parsers look for
+        oids = ["1.2.840.113549.1.5.3", "1.2.840.113549.1.5.6", "1.2.840.113549.1.5.10", "1.2.840.113549.1.5.11", "1.2.840.113549.1.5.13",
+                "1.2.840.113549.1.5.12", "1.3.6.1.4.1.11591.4.11", "2.16.840.1.101.3.4.1.2", "2.16.840.1.101.3.4.1.42", "1.2.840.113549.3.7",
+                "1.2.840.113549.2.9", "1.2.840.113549.1.1.1", "1.2.840.10040.4.1", "1.2.840.10045.2.1", "1.3.101.112", "1.2.3.4"]
+        salt_iter = der.enc_seq([der.enc_octets(b"saltsalt"), der.enc_int(1)])
+        members = [der.enc_oid(o) for o in oids] + [der.enc_null(), der.enc_int(1), der.enc_octets(b"saltsalt"), salt_iter, der.enc_seq([]),
+                                                    der.enc_seq([der.enc_oid("1.2.840.113549.1.5.12"), salt_iter]),
+                                                    der.enc_seq([der.enc_oid("1.2.840.113549.1.5.12"), der.enc_seq([der.enc_octets(b"saltsalt"), der.enc_int(1), der.enc_int(16)])]),
+                                                    der.enc_seq([der.enc_oid("2.16.840.1.101.3.4.1.2"), der.enc_octets(bytes(16))]),
+                                                    der.enc_seq([der.enc_oid("1.3.6.1.4.1.11591.4.11"), der.enc_seq([der.enc_octets(b"saltsalt"), der.enc_int(16), der.enc_int(1), der.enc_int(1)])]),
+                                                    der.enc_seq([der.enc_seq([der.enc_oid("1.2.840.113549.1.5.12"), salt_iter]),
+                                                                 der.enc_seq([der.enc_oid("2.16.840.1.101.3.4.1.2"), der.enc_octets(bytes(16))])])]
+
+        def algid():
+            return der.enc_seq([draw(st.sampled_from(members)) for _ in range(draw(st.integers(0, 3)))])
+        if draw(st.booleans()):
+            items = [algid(), der.enc_octets(draw(st.sampled_from([b"", bytes(8), bytes(16), bytes(24), bytes(7)])))]
+        else:
+            items = [der.enc_int(draw(st.sampled_from([0, 0, 1, 2]))), algid(),
+                     der.enc_octets(draw(st.sampled_from([b"", der.enc_int(5), der.enc_octets(bytes(32)), der.enc_seq([der.enc_int(1), der.enc_octets(bytes(32))])])))]
+        k = draw(st.integers(0, 7))
+        if k == 0 and items:
+            del items[draw(st.integers(0, len(items) - 1))]
+        elif k == 1:
+            items.append(draw(st.sampled_from(members)))
+        elif k == 2:
+            i_ = draw(st.integers(0, len(items) - 1))
+            items[i_] = draw(st.sampled_from(members))
+        data = der.enc_seq(items)
     else:
         import base64
         kt = draw(st.sampled_from(["ssh-rsa", "ssh-dss", "ecdsa-sha2-nistp256", "ssh-ed25519", "ecdsa-sha2-nistp521", "x"]))
@@ -1069,6 +1100,11 @@ def fuzz_corpus():
         for strict in (0, 1):
             out.append(bytes([fuzz_sel("der", cls), strict]) + e)
             out.append(bytes([fuzz_sel("der", "DerObject"), strict]) + e)
+    # skeletons the library cannot export itself: PBES1 EncryptedPrivateKeyInfo, clear PrivateKeyInfo with odd members
+    salt_iter = der.enc_seq([der.enc_octets(b"saltsalt"), der.enc_int(1)])
+    for oid in ("1.2.840.113549.1.5.3", "1.2.840.113549.1.5.10"):
+        out.append(bytes([fuzz_sel("arb", "PKCS8"), 2]) + der.enc_seq([der.enc_seq([der.enc_oid(oid), salt_iter]), der.enc_octets(bytes(16))]))
+    out.append(bytes([fuzz_sel("arb", "PKCS8"), 0]) + der.enc_seq([der.enc_int(0), der.enc_seq([der.enc_oid("1.2.3.4"), der.enc_null()]), der.enc_octets(b"key")]))
     for si, style in enumerate(FUZZ_STYLES):
         out.append(bytes([fuzz_sel("arb", "unpad"), (si << 2) | (3 << 4) | 1]) + bytes(Padding.pad(b"abc", 8, style)))
     out.append(bytes([fuzz_sel("arb", "english"), 1]) + RFC1751.key_to_english(bytes(range(8))).encode())
@@ -1080,6 +1116,13 @@ def run_fuzz(case, rec):
         run_der_total(case, rec)
     else:
         run_arbitrary(case, rec)
+
+
+
+def fuzz_mutator(check_name, atheris_mutate):
+    """Structure-aware (DER tree) mutation in addition to libFuzzer's byte-level one; the first two bytes are the target selector and flags."""
+    from ..dermut import make_mutator
+    return make_mutator(2, atheris_mutate)
 
 
 CHECKS = [
